@@ -53,8 +53,9 @@ def _has_return(stmts):
 def _stored_names(stmts):
     """names bound in this scope by the statements (assignment targets, loop targets, with / except names, nested def names, imports)"""
     out = set()
+    comp_targets = {id(m) for st in stmts for c in ast.walk(st) if isinstance(c, ast.comprehension) for m in ast.walk(c.target)}
     for n in _body_nodes(stmts):
-        if isinstance(n, ast.Name) and isinstance(n.ctx, (ast.Store, ast.Del)):
+        if isinstance(n, ast.Name) and isinstance(n.ctx, (ast.Store, ast.Del)) and id(n) not in comp_targets:
             out.add(n.id)
         elif isinstance(n, (ast.FunctionDef, ast.AsyncFunctionDef, ast.ClassDef)):
             out.add(n.name)
@@ -399,7 +400,22 @@ class Inliner:
             ren[p] = a
         return _Subst(ren).visit(copy.deepcopy(expr))
 
-    def _expand_body(self, helper, call, receiver, caller_names, keep=()):
+    def _dead_after(self, call, ctx):
+        """names the calling function reads nowhere but in this call's arguments (and the call is not in a loop): a helper that
+        re-binds its parameter may then re-bind the caller's variable itself"""
+        outer = ctx["outer"]
+        inside = {id(n) for n in ast.walk(call)}
+        in_loop = False
+        for n in ast.walk(outer):
+            if isinstance(n, (ast.For, ast.While, ast.AsyncFor)) and any(id(x) in inside for x in ast.walk(n)):
+                in_loop = True
+        if in_loop:
+            return set()
+        read_elsewhere = {n.id for n in ast.walk(outer) if isinstance(n, ast.Name) and isinstance(n.ctx, ast.Load) and id(n) not in inside}
+        nested_reads = set()
+        return {n.id for n in ast.walk(call) if isinstance(n, ast.Name)} - read_elsewhere - nested_reads
+
+    def _expand_body(self, helper, call, receiver, caller_names, keep=(), dead=()):
         """(prologue statements binding the parameters, the helper's body with parameters / locals renamed)"""
         n = next(self.counter)
         binds = _bind(helper, call, receiver)
@@ -411,6 +427,9 @@ class Inliner:
         for p, a in binds:
             if p not in stored and isinstance(a, _SIMPLE):
                 ren[p] = a
+            elif isinstance(a, ast.Name) and a.id in dead and sum(1 for _, a2 in binds for x in ast.walk(a2) if isinstance(x, ast.Name) and x.id == a.id) == 1 \
+                    and a.id not in (stored - {p}) and a.id not in (set(helper.params) | set(helper.kwonly)) - {p}:
+                ren[p] = a.id  # the caller's variable is dead after the call: the helper's parameter IS that variable
             else:
                 new = f"{p}_inl{n}" if (p in caller_names or p in arg_names) and p not in keep else p
                 ren[p] = new
@@ -566,11 +585,11 @@ class Inliner:
         if isinstance(st, ast.While):
             raise Unsupported("call in a loop test")
         if isinstance(st, ast.Expr) and st.value is call:
-            pro, body = self._expand_body(h, call, recv, names)
+            pro, body = self._expand_body(h, call, recv, names, dead=self._dead_after(call, ctx))
             body, _ = self._tailify(body, lambda v: ([ast.Expr(value=v)] if v is not None and any(isinstance(x, ast.Call) for x in ast.walk(v)) else []))
             return "replace", self._fix(pro + body, call) or [ast.copy_location(ast.Pass(), st)]
         if isinstance(st, ast.Return) and st.value is call:
-            pro, body = self._expand_body(h, call, recv, names)
+            pro, body = self._expand_body(h, call, recv, names, dead=self._dead_after(call, ctx))
             try:
                 _, done = self._tailify(copy.deepcopy(body), lambda v: [])
             except Unsupported:
@@ -580,7 +599,7 @@ class Inliner:
             return "replace", self._fix(pro + body, call)
         if isinstance(st, ast.Assign) and st.value is call:
             keep = {st.targets[0].id} if len(st.targets) == 1 and isinstance(st.targets[0], ast.Name) and st.targets[0].id not in {x for a in call.args for x in _all_names(a)} | {x for k in call.keywords for x in _all_names(k.value)} else set()
-            pro, body = self._expand_body(h, call, recv, names, keep=keep)
+            pro, body = self._expand_body(h, call, recv, names, keep=keep, dead=self._dead_after(call, ctx))
 
             def emit(v, st=st):
                 v = v if v is not None else ast.Constant(value=None)
@@ -592,7 +611,7 @@ class Inliner:
                 body += emit(None)
             return "replace", self._fix(pro + body, call)
         if isinstance(st, (ast.AnnAssign, ast.AugAssign)) and st.value is call:
-            pro, body = self._expand_body(h, call, recv, names)
+            pro, body = self._expand_body(h, call, recv, names, dead=self._dead_after(call, ctx))
 
             def emit2(v, st=st):
                 new = copy.deepcopy(st)
@@ -604,7 +623,7 @@ class Inliner:
             return "replace", self._fix(pro + body, call)
         # hoist
         r = f"_inl_r{next(self.counter)}"
-        pro, body = self._expand_body(h, call, recv, names | {r})
+        pro, body = self._expand_body(h, call, recv, names | {r}, dead=self._dead_after(call, ctx))
 
         def emit3(v):
             return [ast.Assign(targets=[ast.Name(id=r, ctx=ast.Store())], value=v if v is not None else ast.Constant(value=None), lineno=call.lineno)]
